@@ -393,16 +393,25 @@ def _canary_prefix():
     from circus.stream.file_stream import _FileStreamBase
     from circus.util import to_str
 
-    def write_data(self, data):
+    def format_data(self, data):
         file_data = to_str(data['data'])
         if self._time_format is not None:
             time = self.now().strftime(self._time_format)
             prefix = '{time} [{pid}] | '.format(time=time, pid=data['pid'])
             file_data = prefix + file_data.rstrip('\n')
             file_data += '\n'
+        return file_data
+
+    def write_data(self, data):
+        file_data = format_data(self, data)
         self._file.write(file_data)
         self._file.flush()
-    _FileStreamBase.write_data = write_data
+    # since fix a5e0f6b the prefix is applied by format_data (used by __call__ and by write_data); the canary used to replace
+    # write_data only, which is no longer on FileStream's path, and went unnoticed ("0/1")
+    if hasattr(_FileStreamBase, 'format_data'):
+        _FileStreamBase.format_data = format_data
+    else:
+        _FileStreamBase.write_data = write_data
 
 
 CANARIES = {
